@@ -138,12 +138,12 @@ fn calm_calls(who: &'static str, rounds: u64, flag: &may::sync::SyncFlag) {
                 flag.wait_timeout(Duration::from_micros(250));
             }
             _ => {
-                let (tx, rx) = may::sync::mpsc::channel::<u32>();
+                // no arm that waits in mpsc::Receiver::recv: the loser of a select is cancelled by the cqueue, and a
+                // cancelled recv never ends on a worker that has the dying target suspended inside its unwinding (F33e)
                 let t = may::select!(
                     _ = may::coroutine::sleep(Duration::from_micros(150)) => {},
-                    _ = rx.recv() => {}
+                    _ = flag.wait_timeout(Duration::from_micros(400)) => {}
                 );
-                drop(tx);
                 if t > 1 {
                     c.fail(format!("{who}: select! returned token {t}"));
                 }
